@@ -161,7 +161,7 @@ pub fn run(args: &Args) -> i32 {
                     }
                 };
                 if let Some((key, detail)) = problem {
-                    let e = local.entry(key.clone()).or_insert(Finding {
+                    let e = local.entry(key.clone()).or_insert_with(|| Finding {
                         key,
                         detail,
                         replay: json!({"check": "C12", "packet": f.pkt, "field": f.name, "arg": format!("{a:#x}"), "background": bg}),
@@ -197,7 +197,7 @@ pub fn run(args: &Args) -> i32 {
             for (which, ok) in [("new", new_ok), ("new_view", view_ok)] {
                 if ok != (l >= min) {
                     let key = format!("ctor-min-size:{name}::{which}");
-                    findings.lock().unwrap().entry(key.clone()).or_insert(Finding {
+                    findings.lock().unwrap().entry(key.clone()).or_insert_with(|| Finding {
                         key,
                         detail: format!("{name}::{which} on {l} octets returned ok={ok}; RFC minimum header size is {min}"),
                         replay: json!({"check": "C12", "view": name, "len": l}),
